@@ -154,7 +154,8 @@ def _check_main(ctx, rep: Report):
         provrun.absorb(rep, r)
         rep.oblige("C04.AT", r["entry"], not r["viols"], f"{len(r['paths'])} paths")
         for v in r["viols"]:
-            rep.violate(Violation("C04.AT", v["key"], v["what"], v["site"], v["fn"], v.get("path", []), v["entry"]))
+            ekey = v["entry"].replace("[", "/").replace("]", "").replace(",", "/")
+            rep.violate(Violation("C04.AT", v["key"] + "|entry:" + ekey, v["what"], v["site"], v["fn"], v.get("path", []), v["entry"]))
     for r in pmap(closure_worker, ["__setattr__", "__delattr__"]):
         rep.functions |= set(r["functions"])
         rep.entry_points.add(r["which"])
